@@ -169,6 +169,10 @@ class PcaChain(MetropolisChain):
                     if self.rng.random() < acceptance_prob:
                         break
 
+            if self.bounds is not None:
+                # as for bounded Gibbs parameters: no width beyond the size of the box
+                p.sigma = min(p.sigma, sqrt((self.bounds.width**2).sum()))
+
             theta0 = copy(prop)
             p_old = copy(p_new)
 
